@@ -18,6 +18,8 @@ import FFVerif.Model.Subset
 import FFVerif.Model.Sorm
 import FFVerif.Model.Spectral
 import FFVerif.Model.Miner
+import FFVerif.Model.Form
+import FFVerif.Model.Chol
 import FFVerif.Props.C19
 import FFVerif.Props.C20
 import FFVerif.Gen.DiffTables
@@ -45,8 +47,83 @@ def parseFloats (l : List String) : Option (Array Float) :=
 def showGen (r : Option (Float × Bool)) : Option String :=
   r.map (fun p => s!"{p.1.toBits.toNat} {if p.2 then 1 else 0}")
 
+/-- comma-separated float bit patterns -/
+def parseFloatCsv (s : String) : Option (Array Float) :=
+  if s == "-" then some #[] else parseFloats ((s.splitOn ",").filter (· ≠ ""))
+
+def showFloats (l : List Float) : String :=
+  if l.isEmpty then "-" else ",".intercalate (l.map (fun v => toString v.toBits.toNat))
+
+def vecOf (a : Array Float) (off : Nat) : Nat → Float := fun i => a.getD (off + i) 0
+def matOf (a : Array Float) (off n : Nat) : Nat → Nat → Float := fun i j => a.getD (off + i * n + j) 0
+def vecList (n : Nat) (v : Nat → Float) : List Float := (List.range n).map v
+def matList (n : Nat) (m : Nat → Nat → Float) : List Float :=
+  (List.range n).flatMap (fun i => (List.range n).map (fun j => m i j))
+
+/-- marginals: kinds `n` (normal: p1 = mu, p2 = sigma) / `l` (lognormal: p1 = m, p2 = s), `,`-separated -/
+def parseMargs (kinds : String) (p1 p2 : Array Float) : Option (Nat → Nataf.Marg Float) := do
+  let ks := (kinds.splitOn ",").toArray
+  if ks.any (fun k => k ≠ "n" ∧ k ≠ "l") then none else
+  some (fun i => if ks.getD i "n" == "l" then .lognormal (p1.getD i 0) (p2.getD i 1) else .normal (p1.getD i 0) (p2.getD i 1))
+
+/-- quadratic limit state `c0 + b·x + xᵀ Q x` and its gradient `b + (Q + Qᵀ) x` -/
+def quadG (n : Nat) (c0 : Float) (b : Nat → Float) (Q : Nat → Nat → Float) : (Nat → Float) → Float :=
+  fun x => c0 + Linalg.dot n b x + Linalg.dot n x (Linalg.mulVec n Q x)
+def quadDG (n : Nat) (b : Nat → Float) (Q : Nat → Nat → Float) : (Nat → Float) → Nat → Float :=
+  fun x i => b i + Linalg.fsum n (fun j => (Q i j + Q j i) * x j)
+
+def natafModel (n : Nat) (margs : Nat → Nataf.Marg Float) (rhoZ : Nat → Nat → Float) : Nataf.Model Float :=
+  Nataf.build n margs rhoZ
+
+def showIterates (T : Nataf.Model Float) (l : List (Form.Iterate Float)) : String :=
+  if l.isEmpty then "-" else ";".intercalate (l.map (fun it =>
+    showFloats (it.beta :: vecList T.dim it.u ++ vecList T.dim (Nataf.getX T it.u))))
+
 def handle (toks : List String) : Option String :=
   match toks with
+  | ["nataf", n, kinds, p1, p2, corr, rhoZ, xs, us] => do
+    let n ← n.toNat?
+    let p1 ← parseFloatCsv p1
+    let p2 ← parseFloatCsv p2
+    let margs ← parseMargs kinds p1 p2
+    let corr ← parseFloatCsv corr
+    let rz ← parseFloatCsv rhoZ
+    let xs ← parseFloatCsv xs
+    let us ← parseFloatCsv us
+    let lat : Nat → Nat → Float := fun i j => if i = j then 1 else Nataf.latent (margs i) (margs j) (matOf corr 0 n i j)
+    let T := natafModel n margs (matOf rz 0 n)
+    let x := vecOf xs 0
+    let u := vecOf us 0
+    some (" ".intercalate [showFloats (matList n lat), if Chol.pivotsOK n (matOf rz 0 n) then "pd" else "notpd",
+      showFloats (matList n T.L), showFloats (matList n T.Linv),
+      showFloats (vecList n (Nataf.getU T x)), showFloats (matList n (Nataf.jacGetU T x)),
+      showFloats (vecList n (Nataf.getX T u)), showFloats (matList n (Nataf.jacGetX T u))])
+  | ["hlrf", n, kinds, p1, p2, rhoZ, tol, iter, c0, b, Q] => do
+    let n ← n.toNat?
+    let p1 ← parseFloatCsv p1
+    let p2 ← parseFloatCsv p2
+    let margs ← parseMargs kinds p1 p2
+    let rz ← parseFloatCsv rhoZ
+    let tol ← parseFloatCsv tol
+    let iter ← iter.toNat?
+    let c0 ← parseFloatCsv c0
+    let b ← parseFloatCsv b
+    let Q ← parseFloatCsv Q
+    let T := natafModel n margs (matOf rz 0 n)
+    let g := quadG n (c0.getD 0 0) (vecOf b 0) (matOf Q 0 n)
+    let dg := quadDG n (vecOf b 0) (matOf Q 0 n)
+    let tr := Form.trace T g dg (tol.getD 0 0) iter (fun _ => 1)
+    match Form.hlrf T g dg (tol.getD 0 0) iter with
+    | some (beta, u, x) => some s!"ok {showFloats (beta :: vecList n u)} {showFloats (vecList n x)} {showIterates T tr}"
+    | none => some s!"noconv - - {showIterates T tr}"
+  | ["fosm", n, mus, sigmas, c0, b, Q] => do
+    let n ← n.toNat?
+    let mus ← parseFloatCsv mus
+    let sg ← parseFloatCsv sigmas
+    let c0 ← parseFloatCsv c0
+    let b ← parseFloatCsv b
+    let Q ← parseFloatCsv Q
+    some (showFloats [Form.fosm n (quadG n (c0.getD 0 0) (vecOf b 0) (matOf Q 0 n)) (quadDG n (vecOf b 0) (matOf Q 0 n)) (vecOf mus 0) (vecOf sg 0)])
   | "gen" :: "MeanStress" :: name :: args => do showGen (Gen.evalMeanStress name (← parseFloats args))
   | "gen" :: "Wave" :: name :: args => do showGen (Gen.evalWave name (← parseFloats args))
   | "gen" :: "Wind" :: name :: args => do showGen (Gen.evalWind name (← parseFloats args))
